@@ -544,6 +544,20 @@ func (in *c16Inst) Step(nd mc.Node, b rBlock, path []rBlock, silent bool) mc.Nod
 		if rec.Status != relayertypes.VOTER_STATUS_ACTIVATED && rec.Status != relayertypes.VOTER_STATUS_OFF_BOARDING {
 			viol("member-with-bad-status", fmt.Sprintf("%s status %s", a, rec.Status))
 		}
+		// "awaiting removal at the next election" has to mean that the election will find it: a member
+		// flagged as leaving is in the off-boarding queue (a flag without a queue entry is a removal
+		// that was half applied: the member never leaves and can never be asked to leave again)
+		if rec.Status == relayertypes.VOTER_STATUS_OFF_BOARDING {
+			queued := false
+			for _, q := range post.Queue.OffBoarding {
+				if q == a {
+					queued = true
+				}
+			}
+			if !queued {
+				viol("member-flagged-as-leaving-but-not-queued-for-removal", fmt.Sprintf("%s (m%d) has status %s, off-boarding queue %v", a, in.byAddr[a], rec.Status, post.Queue.OffBoarding))
+			}
+		}
 		idx, known := in.byAddr[a]
 		if !known {
 			viol("unknown-member", a)
@@ -578,7 +592,7 @@ func runC16(r *mc.Run) {
 		r.SetBudget(300 * 1e9)
 	}
 	r.Bounds["depth_blocks"] = depth
-	r.Rule = "DFS over relayer histories for group sizes 1..3: add/remove requests (single, duplicate, proposer, everybody, non-member, re-joining address), NewVoter with genuine proofs and 8 forged/replayed variants, AcceptProposer (right/wrong epoch, after timeout), block-hash votes by all members / with the joining member, time deltas {1,30,100}s (timeout 30s, period 100s); oracle = group invariants in every state, NewVoter accepted iff genuine for the current context, election timing predicate, EndBlocker never fails"
+	r.Rule = "DFS over relayer histories for group sizes 1..3: add/remove requests (single, duplicate, proposer, everybody, non-member, re-joining address), NewVoter with genuine proofs and 8 forged/replayed variants, AcceptProposer (right/wrong epoch, after timeout), block-hash votes by all members / with the joining member, time deltas {1,30,100}s (timeout 30s, period 100s); oracle = group invariants in every state (incl. every member flagged as leaving is queued for removal), NewVoter accepted iff genuine for the current context, election timing predicate, EndBlocker never fails"
 	r.Assumptions = []string{"the relayer contract registers sha256(BLS key) as key hash", "BLS/ECDSA unforgeability"}
 	completed := depth
 	for _, c := range c16Configs(r.Thorough()) {
